@@ -301,6 +301,23 @@ def o3(tier):
             r.fail('O3/find_message_epoch_by_tag_content/null-epoch', 'the epoch-hint lookup may return a row without epoch')
         if not ('tags' in cols and cols['tags'][1] == 'like'):
             r.fail('O3/find_message_epoch_by_tag_content/no-tag-filter', 'the epoch-hint lookup does not filter on the tag content')
+    # look-ups by key return whatever is stored under the key (the memory backend is a map get): exactly `key column = ?`, nothing else narrows the result
+    KEY_LOOKUPS = [('welcomes.rs', 'find_welcome_by_event_id', 'welcomes', ['id']), ('welcomes.rs', 'find_processed_welcome_by_event_id', 'processed_welcomes', ['wrapper_event_id']),
+                   ('groups.rs', 'find_group_by_mls_group_id', 'groups', ['mls_group_id']), ('groups.rs', 'find_group_by_nostr_group_id', 'groups', ['nostr_group_id']),
+                   ('groups.rs', 'group_relays', 'group_relays', ['mls_group_id']), ('groups.rs', 'get_group_exporter_secret', 'group_exporter_secrets', ['epoch', 'mls_group_id']),
+                   ('messages.rs', 'find_message_by_event_id', 'messages', ['id', 'mls_group_id']), ('messages.rs', 'find_processed_message_by_event_id', 'processed_messages', ['wrapper_event_id']),
+                   ('groups.rs', 'all_groups', 'groups', [])]
+    for rel, fn, table, keys in KEY_LOOKUPS:
+        cases += 1
+        sel = [x for x in (S.parse_stmt(y) for y in S.program(rel, fn)) if x.kind == 'SELECT' and x.table == table]
+        if len(sel) != 1:
+            r.fail(f'O3/{fn}/shape', f'{fn}: expected exactly one SELECT on {table}, found {len(sel)}'); continue
+        q = sel[0]
+        conj = [c for c in (q.where or [])]
+        good = all(isinstance(c, tuple) and len(c) == 3 and c[1] == '=' and str(c[2]).strip().startswith('?') for c in conj) and sorted(c[0] for c in conj) == sorted(keys)
+        if not good or re.search(r'\bJOIN\b', q.text, re.I) or (q.limit is not None and keys == []):
+            r.fail(f'O3/{fn}/key-lookup-narrowed', f'SQLite {fn} selects "{q.text.split("FROM", 1)[1].strip()[:110]}" instead of exactly {" AND ".join(k + " = ?" for k in keys) or "every row"}: '
+                   'a stored row is not found under its key (the memory backend returns it), e.g. a welcome that was already accepted or declined')
     r.cases = cases
     r.queries, r.solver_s = sol.queries, sol.time
     r.functions = ['messages.rs::find_message_epoch_by_tag_content', 'messages.rs::invalidate_messages_after_epoch', 'messages.rs::invalidate_processed_messages_after_epoch', 'messages.rs::find_failed_messages_for_retry',
@@ -586,8 +603,17 @@ def o15(tier):
     return memobs.epoch_hint_lookup(tier, 'O15', 'O15')
 
 
+def o16(tier):
+    """a rollback gives back the record as it was saved, on SQLite as on the memory backend (which keeps the record itself)"""
+    from props import C09
+    r = C09.sqlite_columns(tier)
+    r.oid = 'O16'
+    r.title = 'SQLite (shared with C09-O2): the snapshot of a group row carries every column and the restore binds each decoded value to the column it was read from (writer / reader tuple positions agree), so a rolled-back record equals the saved one field for field, as on the memory backend'
+    return r
+
+
 def run(tier, seed, only=None):
-    obs = [('O1', o1), ('O2', o2), ('O3', o3), ('O4', o4), ('O5', o5), ('O6', o6), ('O7', o7), ('O8', o8), ('O9', o9), ('O10', o10), ('O11', o11), ('O12', o12), ('O13', o13), ('O14', o14), ('O15', o15)]
+    obs = [('O1', o1), ('O2', o2), ('O3', o3), ('O4', o4), ('O5', o5), ('O6', o6), ('O7', o7), ('O8', o8), ('O9', o9), ('O10', o10), ('O11', o11), ('O12', o12), ('O13', o13), ('O14', o14), ('O15', o15), ('O16', o16)]
     out = []
     for k, f in obs:
         if only and k not in only:
